@@ -47,7 +47,7 @@ func (o *c04Oracle) covered(d Day) bool {
 			return d.Year() != f.Day.Year() // a year file with a gap inside is unusable as a whole
 		}
 		return d != f.Day
-	case "year-missing":
+	case "year-missing", "year-empty":
 		return d.Year() != f.Day.Year()
 	case "delete-at":
 		// one file per year, loaded on the first simulated day of the year: gone if deleted before that day
@@ -339,7 +339,7 @@ func init() {
 				}
 				kinds := []string{"end-early", "start-late", "gap"}
 				if w.Cfg.WeatherLayout == 0 {
-					kinds = []string{"end-early", "gap", "year-missing", "delete-at", "delete-at"}
+					kinds = []string{"end-early", "gap", "year-missing", "year-empty", "delete-at", "delete-at"}
 				}
 				f := &WxFault{Kind: r.PickS(kinds), Day: pos()}
 				if f.Day < ws.FirstDay+1 {
@@ -369,7 +369,7 @@ func init() {
 			return res.Stats["reach.year-rollover"] > 0 || res.Stats["reach.uncovered-run-ended-with-error"] > 0
 		},
 		Rule:      "one generated world per evaluation: a weather world (map date -> record) materialised in one of the three layouts, any first day, 1-40 years, sentinels in optional columns (biased to 31 Dec / 1 Jan / leap day), wind below the floor, series starting before the start year; 45 % carry one input fault (series ends early, starts late, has a gap, a year file is missing, a year file disappears at a simulated date). The values the model holds for each simulated day are compared with the record of that date; the echo in the daily result file likewise; a run whose input does not cover a simulated day must end with an error and write no record on or after that day; a covered run must succeed. Non-trivial = the run crossed a year boundary or ended with the demanded error",
-		ReachKeys: []string{"reach.year-rollover", "reach.leap-day-366", "reach.sentinel-filled", "reach.sentinel-at-year-boundary", "reach.wind-below-floor", "reach.precipitation-correction", "reach.series-starts-before-start-year", "reach.uncovered-run-ended-with-error", "fault.end-early", "fault.start-late", "fault.gap", "fault.year-missing", "fault.delete-at", "fault.year-file-deleted-mid-run"},
+		ReachKeys: []string{"reach.year-rollover", "reach.leap-day-366", "reach.sentinel-filled", "reach.sentinel-at-year-boundary", "reach.wind-below-floor", "reach.precipitation-correction", "reach.series-starts-before-start-year", "reach.uncovered-run-ended-with-error", "fault.end-early", "fault.start-late", "fault.gap", "fault.year-missing", "fault.year-empty", "fault.delete-at", "fault.year-file-deleted-mid-run"},
 		Assumptions: []string{
 			"invalid-status scenarios are the fault population (a run that ends with the demanded error); they are checked, not skipped",
 			"wind: raw value or max(raw, 0.5) accepted (the floor is applied where wind is consumed)",
